@@ -137,6 +137,11 @@ void EGLPNUM_TYPENAME_ILLstart ( void)
 	/* parameters that do depend on the tolerance to zero */
 	EGLPNUM_TYPENAME_EGlpNumSet (EGLPNUM_TYPENAME_PARAM_MIN_DNORM, 4.5036e-9);
 	EGLPNUM_TYPENAME_EGlpNumMultTo (EGLPNUM_TYPENAME_PARAM_MIN_DNORM, EGLPNUM_TYPENAME_epsLpNum);
+	/* exact arithmetic has epsilon 0, but the floor of the steepest-edge
+	 * norms is a divisor: norms started from inexact values (a scaled copy,
+	 * an edited problem) can reach exactly zero in the update recurrence */
+	if (!EGLPNUM_TYPENAME_EGlpNumIsNeqqZero (EGLPNUM_TYPENAME_PARAM_MIN_DNORM))
+		EGLPNUM_TYPENAME_EGlpNumSet (EGLPNUM_TYPENAME_PARAM_MIN_DNORM, 1e-30);
 	EGLPNUM_TYPENAME_EGlpNumSet (EGLPNUM_TYPENAME_PFEAS_TOLER, 4.5036e9);
 	EGLPNUM_TYPENAME_EGlpNumMultTo (EGLPNUM_TYPENAME_PFEAS_TOLER, EGLPNUM_TYPENAME_epsLpNum);
 	EGLPNUM_TYPENAME_EGlpNumSet (EGLPNUM_TYPENAME_BD_TOLER, 4.5036e8);
@@ -213,6 +218,11 @@ void EGLPNUM_TYPENAME_ILLchange_precision (
 	/* parameters that do depend on the tolerance to zero */
 	EGLPNUM_TYPENAME_EGlpNumSet (EGLPNUM_TYPENAME_PARAM_MIN_DNORM, 4.5036e-9);
 	EGLPNUM_TYPENAME_EGlpNumMultTo (EGLPNUM_TYPENAME_PARAM_MIN_DNORM, EGLPNUM_TYPENAME_epsLpNum);
+	/* exact arithmetic has epsilon 0, but the floor of the steepest-edge
+	 * norms is a divisor: norms started from inexact values (a scaled copy,
+	 * an edited problem) can reach exactly zero in the update recurrence */
+	if (!EGLPNUM_TYPENAME_EGlpNumIsNeqqZero (EGLPNUM_TYPENAME_PARAM_MIN_DNORM))
+		EGLPNUM_TYPENAME_EGlpNumSet (EGLPNUM_TYPENAME_PARAM_MIN_DNORM, 1e-30);
 	EGLPNUM_TYPENAME_EGlpNumSet (EGLPNUM_TYPENAME_PFEAS_TOLER, 4.5036e9);
 	EGLPNUM_TYPENAME_EGlpNumMultTo (EGLPNUM_TYPENAME_PFEAS_TOLER, EGLPNUM_TYPENAME_epsLpNum);
 	EGLPNUM_TYPENAME_EGlpNumSet (EGLPNUM_TYPENAME_BD_TOLER, 4.5036e8);
